@@ -529,7 +529,9 @@ func c03writeBeforeAnnounce(c *Ctx) {
 	P, R := c.P, c.R
 	R.Explain("R03.5", "write-before-announce (T-DOM): every construction of a flag-changing state update (Set/Added/Removed) in internal/state is dominated by the matching transaction write (SetFlagsOnMessages / AddFlagToMessages|SetMailboxMessagesDeletedFlag / RemoveFlagFromMessages|SetMailboxMessagesDeletedFlag): a change is never broadcast to the sessions without having been written to the index.")
 	want := map[string][]string{
-		"NewMessageFlagsSetStateUpdate":     {"SetFlagsOnMessages"},
+		"NewMessageFlagsSetStateUpdate": {"SetFlagsOnMessages"},
+		// a replacement sets the shared flags AND this mailbox's \Deleted column, whatever the (possibly stale) snapshot says
+		"NewMessageFlagsSetStateUpdate#2":   {"SetMailboxMessagesDeletedFlag"},
 		"newMessageFlagsAddedStateUpdate":   {"AddFlagToMessages", "SetMailboxMessagesDeletedFlag"},
 		"NewMessageFlagsRemovedStateUpdate": {"RemoveFlagFromMessages", "SetMailboxMessagesDeletedFlag"},
 	}
@@ -540,25 +542,30 @@ func c03writeBeforeAnnounce(c *Ctx) {
 			if sc == nil {
 				continue
 			}
-			writes, isCtor := want[engine.ShortName(sc)]
-			if !isCtor {
+			if _, isCtor := want[engine.ShortName(sc)]; !isCtor {
 				continue
 			}
 			n++
-			ok := false
-			for _, cs2 := range engine.Calls(f) {
-				cc := cs2.Common()
-				if !cc.IsInvoke() || !engine.IsNamed(cc.Value.Type(), "db", "Transaction") {
+			for _, wk := range []string{engine.ShortName(sc), engine.ShortName(sc) + "#2"} {
+				writes, has := want[wk]
+				if !has {
 					continue
 				}
-				for _, w := range writes {
-					if cc.Method.Name() == w && engine.InstrDominates(cs2.Instr, cs.Instr) {
-						ok = true
+				ok := false
+				for _, cs2 := range engine.Calls(f) {
+					cc := cs2.Common()
+					if !cc.IsInvoke() || !engine.IsNamed(cc.Value.Type(), "db", "Transaction") {
+						continue
+					}
+					for _, w := range writes {
+						if cc.Method.Name() == w && engine.InstrDominates(cs2.Instr, cs.Instr) {
+							ok = true
+						}
 					}
 				}
+				R.Check(ok, "R03.5", c.name(f)+"|"+wk, P.Pos(cs.Pos()), "the flag change is written to the index before it is announced",
+					"the state update "+engine.ShortName(sc)+" is built on a path where none of "+strings.Join(writes, "/")+" was executed: sessions are told about a flag change that the index never received (a new session sees the old flags)")
 			}
-			R.Check(ok, "R03.5", c.name(f)+"|"+engine.ShortName(sc), P.Pos(cs.Pos()), "the flag change is written to the index before it is announced",
-				"the state update "+engine.ShortName(sc)+" is built on a path where none of "+strings.Join(writes, "/")+" was executed: sessions are told about a flag change that the index never received (a new session sees the old flags)")
 		}
 	}
 	R.Min("R03.5", "flag-change state update constructions", n, 5)
